@@ -49,6 +49,10 @@ theorem asset_gauge_payout_le (g : Gauge) (locks : List Lock) (tr tr' : Tracker)
   · exact h1
   · have := hb i; omega
 
+/-- non-vacuity: a non-perpetual gauge with 100 coins, 10 already distributed, 3 epochs left, two locks -/
+def exGauge : Gauge := ⟨1, .asset 0 1, false, [100], [10], 1, 4, 1, .active⟩
+example : calcAsset exGauge [⟨0, 0, 2, 5⟩, ⟨1, 0, 1, 5⟩] [] = some ([(0, [20]), (1, [10])], [30]) := by decide
+
 /-- a rollapp gauge pays its owner exactly the remainder (so never more than was deposited) -/
 theorem rollapp_gauge_bounded (s : State) (g : Gauge) (r : Nat) (tr tr' : Tracker) (c : Coins)
     (hb : ∀ i, amt g.distributed i ≤ amt g.coins i) (h : calcRollapp s g r tr = .ok tr' c) :
@@ -58,6 +62,11 @@ theorem rollapp_gauge_bounded (s : State) (g : Gauge) (r : Nat) (tr tr' : Tracke
   rcases a i with h1 | h1
   · exact h1
   · have := hb i; omega
+
+def exRollappGauge : Gauge := ⟨1, .rollapp 0, true, [100], [10], 0, 0, 0, .active⟩
+example : (match calcRollapp { rollapps := [⟨true, 4, true⟩] } exRollappGauge 0 [] with
+    | .ok tr c => tr == [(4, [90])] && c == [90]
+    | _ => false) = true := by decide
 
 /-- **for every history** of gauge creation, top-up, stream creation / termination / re-targeting, lock
     and rollapp changes, blocks, epoch boundaries and iteration limits: no gauge (asset or rollapp) has
@@ -75,15 +84,6 @@ theorem gauge_invariant_inductive (s : State) (op : Op) (h : GInv s) (hw : op.wf
 /-- coins not yet distributed by the gauges that are not finished -/
 def owedUnfinished (gs : List Gauge) (i : Nat) : Nat :=
   ((gs.filter (fun g => g.status != .finished)).map (owedG · i)).sum
-
-theorem sum_filter_le {α : Type} (f : α → Nat) (p : α → Bool) (l : List α) : ((l.filter p).map f).sum ≤ (l.map f).sum := by
-  induction l with
-  | nil => simp
-  | cons x xs ih =>
-    simp only [List.filter_cons]
-    split
-    · simp only [List.map_cons, List.sum_cons]; omega
-    · simp only [List.map_cons, List.sum_cons]; omega
 
 /-- **for every history**: the incentives module account holds at least the undistributed remainder of
     all its unfinished gauges (indeed of all gauges), per denom -/
@@ -194,26 +194,6 @@ theorem paging_progress {σ : Type} (data : List SView) (e : Nat) (p : Pointer) 
     (cb : σ → SView → Rec → σ × Nat) (acc : σ) (hmax : 1 ≤ max) (hne : remaining data e p ≠ []) :
     iterVisits data e p max cb acc ≠ [] :=
   iterate_progress data e p max cb acc hmax hne
-
-theorem strictInc_of_pairwise (l : List Nat) (h : l.Pairwise (· < ·)) : StrictInc l := by
-  induction l with
-  | nil => intro i j _ hj; simp at hj
-  | cons x xs ih =>
-    obtain ⟨h1, h2⟩ := List.pairwise_cons.1 h
-    intro i j hij hj
-    cases j with
-    | zero => omega
-    | succ j =>
-      cases i with
-      | zero =>
-        simp only [List.getD_cons_zero, List.getD_cons_succ]
-        have hj' : j < xs.length := by simpa using hj
-        have : xs.getD j 0 = xs[j] := by simp [List.getD_eq_getElem?_getD, hj']
-        rw [this]
-        exact h1 _ (List.getElem_mem hj')
-      | succ i =>
-        simp only [List.getD_cons_succ]
-        exact ih h2 i j (by omega) (by simpa using hj)
 
 /-- the data used in the examples: streams 2 and 3 (hour), 5 (day), sorted by id -/
 def exData : List SView := [⟨2, 1, [⟨1, 1⟩, ⟨2, 1⟩]⟩, ⟨3, 1, [⟨1, 5⟩, ⟨4, 5⟩]⟩, ⟨5, 0, [⟨1, 1⟩]⟩]
